@@ -253,7 +253,7 @@ pub fn replay(case: &Value) -> Result<(), String> {
     let hard = script.faults.iter().any(|f| matches!(f.1, Fault::Hard(_)));
     let mut got = Vec::new();
     let info = run_one(src, &input, cfg, &script, hard, &mut got);
-    println!("input: {:?} cfg [{}] {:?} script {}", lossy(&input), cfg_show(cfg), src, script.to_json());
+    println!("input: {:?} cfg [{}] {:?} script {}", lossy_head(&input), cfg_show(cfg), src, script.to_json());
     println!("fault-free:");
     for o in show_trace(&reference) {
         println!("  {}", o.as_str().unwrap());
